@@ -27,7 +27,10 @@
    Switches (cfg): ClampTtl - the script clamps its ttl to >= 1 (proposed fix; FALSE = the
    original floor(2*burst/rate)); MonoTs - the script never moves the stored second backwards
    (proposed fix; FALSE = original); NilIsError - a refused request treated as a store error
-   (a seeded bug); Lags - how far behind the store's clock a caller's `now` may be.        *)
+   (a seeded bug); EarlyClear - startMonitor clears redisAlive before it looks at
+   monitorStarted (a seeded bug: meeting a monitor that is just leaving, the instance is left in
+   fallback mode without a monitor); Lags - how far behind the store's clock a caller's `now`
+   may be.                                                                                   *)
 EXTENDS TokenBucket, Sequences, TLC
 
 CONSTANTS
@@ -36,7 +39,8 @@ CONSTANTS
   AdvSet,      \* clock advances (ms), only between calls
   Lags,        \* subset of {0, 1000}
   MaxCalls, MaxAdv, MaxFaults,
-  ClampTtl, MonoTs, NilIsError
+  ClampTtl, MonoTs, NilIsError,
+  EarlyClear   \* seeded bug: startMonitor clears redisAlive before it looks at monitorStarted
 
 VARIABLES
   clk, storeUp, tokKey, tsKey, keyExp,
@@ -138,7 +142,8 @@ OnErr(p) ==
   LET i == InstOf(p) IN
   /\ pc[p] = "onerr"
   /\ IF monStarted[i]
-       THEN UNCHANGED <<monStarted, aliveF, monRun>>
+       THEN /\ UNCHANGED <<monStarted, monRun>>
+            /\ aliveF' = IF EarlyClear THEN [aliveF EXCEPT ![i] = FALSE] ELSE aliveF
        ELSE /\ monStarted' = [monStarted EXCEPT ![i] = TRUE]
             /\ aliveF' = [aliveF EXCEPT ![i] = FALSE]
             /\ monRun' = [monRun EXCEPT ![i] = "wait"]
